@@ -149,8 +149,14 @@ def main():
         ],
         "checks": checks,
         "not_applicable": sorted(na, key=lambda x: x["property_id"]),
-        "notes": "Technique family: static analysis. Every check re-extracts facts from /repo's current working tree (cached per tree hash) "
-                 "and reports a specific construct. Known findings live in known_findings.txt.",
+        "notes": "Technique family: static analysis only (no test, simulation or solver run). Every check re-extracts facts from /repo's current "
+                 "working tree with a rustc_private driver (cached per tree hash), analyses BOTH feature configurations (default, benchmark) in the "
+                 "quick tier, and reports a specific construct (file:line, function, rule instance). Where a property leans on a clause another "
+                 "module decides, that module's rules are re-evaluated and reported under the property's own id (folds, DESIGN.md section 9). "
+                 "thorough = quick + re-decision of every dominance query on pre-borrowck MIR dominators + replay of the mutant corpus "
+                 "mutants/<ID>/*.patch on scratch copies (exit 2 if a mutant is not reported). Repaired defects are listed as fixed: in "
+                 "known_findings.txt; there are no open known findings. Validation corpora: 126 mutants, 34 benign refactors, 93 confirmed "
+                 "changes by independent sub-agents in seeded/ (DESIGN.md sections 11-12).",
     }
     with open(os.path.join(VERIF, "MANIFEST.json"), "w") as fh:
         json.dump(m, fh, indent=1)
